@@ -91,11 +91,14 @@ func NewErc20World(seed int64, tid string) *Erc20World {
 	w.Fwds = []string{"fc", "fd"}
 	add("zero", common.Address{})
 	add("mod", chain.GovModule)
+	// the cpc module account itself: the precompile routes burns through it (send to module, burn from module),
+	// so coins parked on it must survive other holders' burns
+	add("cpcmod", cpctypes.CpcModuleAddress)
 	add("tokA", w.Tok["A"])
 	add("tokB", w.Tok["B"])
-	w.Holders = []string{"a1", "a2", "a3", "fc", "fd", "zero", "mod", "tokA", "tokB"}
+	w.Holders = []string{"a1", "a2", "a3", "fc", "fd", "zero", "mod", "cpcmod", "tokA", "tokB"}
 	w.Owners = []string{"a1", "a2", "a3", "fc", "fd"}
-	w.Spenders = []string{"a1", "a2", "a3", "fc", "fd", "mod", "tokA", "tokB"}
+	w.Spenders = []string{"a1", "a2", "a3", "fc", "fd", "mod", "cpcmod", "tokA", "tokB"}
 	return w
 }
 
@@ -446,6 +449,13 @@ func (w *Erc20World) GenStep(out *trace.W, stats map[string]int) {
 		caller = "fd"
 	}
 	anyAddr := func() string { return w.pick(w.Holders) }
+	// receivers: park coins on the cpc module account often, so that later burns run while it holds some
+	recvAddr := func() string {
+		if r.Intn(5) == 0 {
+			return "cpcmod"
+		}
+		return anyAddr()
+	}
 	k := Erc20Call{Token: t, Caller: caller, Payer: payer, Via: via, A1: "none", A2: "none"}
 	// owners that granted the caller something (on either token: the code's table has no token)
 	var granted []string
@@ -463,10 +473,10 @@ func (w *Erc20World) GenStep(out *trace.W, stats map[string]int) {
 	}
 	switch m := r.Intn(100); {
 	case m < 18:
-		k.Method, k.A1 = "transfer", anyAddr()
+		k.Method, k.A1 = "transfer", recvAddr()
 		k.Amt = w.amount(t, caller, "", payer)
 	case m < 46:
-		k.Method, k.A1, k.A2 = "transferFrom", pickOwner(), anyAddr()
+		k.Method, k.A1, k.A2 = "transferFrom", pickOwner(), recvAddr()
 		k.Amt = w.amount(t, k.A1, caller, payer)
 	case m < 68:
 		k.Method, k.A1 = "approve", anyAddr()
@@ -547,7 +557,7 @@ func ReplayErc20(out *trace.W, script string) map[string]int {
 				amt = new(big.Int).Sub(Half256, amt)
 			}
 			if st.Kind == "send" {
-				if w.Acct[st.C] == nil || st.A1 == "mod" || st.A1 == "zero" {
+				if w.Acct[st.C] == nil || st.A1 == "mod" || st.A1 == "cpcmod" || st.A1 == "zero" {
 					// outside the modelled environment: a contract cannot sign a native message, and x/bank refuses
 					// MsgSend to module accounts (blocked addresses)
 					continue
